@@ -242,6 +242,12 @@ fn check_seq(p: &Props, sv: &SeqView, info: &PlanInfo, last_only: bool, out: &mu
             out.push(v("C12", "tl-order", format!("thread-local list {:?}, registered {:?}", l.tl, tl_members)));
         }
     }
+    // C07: what is registered inside a batch stays inside it (and runs on every inner dispatch): the thread-local list
+    // of every inner dispatcher holds exactly the inner builder's thread-local systems, and nothing of a batch shows
+    // up in the list of the dispatcher around it
+    if p.c07 && l.tl != tl_members && (sv.depth > 0 || info.nodes.iter().any(|n| n.kind == Kind::Batch)) {
+        out.push(v("C07", "batch-thread-local-systems-moved", format!("thread-local list at depth {} is {:?}, registered there {:?}", sv.depth, l.tl, tl_members)));
+    }
     if pos.len() != stage_members.len() || stage_members.iter().any(|id| !pos.contains_key(id)) {
         // layout not consistent with registration: the remaining checks would be meaningless
         if !(p.c04) {
@@ -653,6 +659,19 @@ pub fn check_state(p: &Props, ops: &[Op], info: &PlanInfo, obs: &Obs, last_only:
         }
     }
     if p.c04 {
+        for (missing, runs, panic) in &obs.runs_absent {
+            let what = if *missing == 0 { "A" } else { "C" };
+            if let Some(e) = panic {
+                out.push(v("C04", "dispatch-panicked", format!("two dispatches on a world without resource {} (which only optional members name) panicked: {}", what, e)));
+                continue;
+            }
+            for n in info.nodes.iter().filter(|n| !info.rejected.contains(&n.id)) {
+                let exp = expected_runs(info, n.id, 2, 2);
+                if runs[n.id] != exp {
+                    out.push(v("C04", if runs[n.id] < exp { "system-skipped" } else { "system-ran-too-often" }, format!("system {} ran {} times in two dispatches on a world without resource {} (which only Option<Read> / Option<Write> members name), expected {}: {}", n.id, runs[n.id], what, exp, l.short())));
+                }
+            }
+        }
         for (n, r) in &obs.runs_by_pool {
             out.push(v("C04", "run-count-depends-on-pool-size", format!("with a default pool of {} threads the run counters are {:?}, with an unbounded pool {:?}: {}", n, r, obs.runs, l.short())));
         }
